@@ -66,6 +66,23 @@ def ob_weights(k):
     return f
 
 
+def ob_count_mismatch(n_obj, n_w):
+    """objective / weight count mismatch (n_obj == 0: scalar objective; n_w == 0: an *empty* weight list) is rejected by
+    optimize() with ValueError before any cycle has run"""
+    def f():
+        st = stubs.Stream("np")
+        with env(stubs.numpy_stream_layer(lambda: st)):
+            ret = [sym.real(f"F{j}") for j in range(n_obj)] if n_obj else sym.real("F")
+            t = make_task([cont()], lambda x, i: ret, weights=[sym.real(f"w{j}", lo=0.0) for j in range(n_w)])
+            opt = Scripted(M.BaseOptimizationConfig(population_size=2, fitness_error=None, max_cycles=2))
+            try:
+                opt.optimize(t)
+            except ValueError:
+                return OK if opt.steps == 0 else Failure("count-mismatch-rejected-after-cycles-ran", steps=opt.steps)
+            return Failure("objective/weight-count-mismatch-accepted", n_obj=n_obj, n_w=n_w, steps=opt.steps)
+    return f
+
+
 def ob_run(names, dname, n_obj, mode, cycles):
     def f():
         st = stubs.Stream("np")
@@ -138,6 +155,8 @@ def obligations(tier):
     obs = [Ob("entry[config]", ob_entry(True), 600), Ob("entry[no-config]", ob_entry(False), 300)]
     for k in (1, 2, 3):
         obs.append(Ob(f"weights[k={k}]", ob_weights(k), 60))
+    for n_obj, n_w in ((0, 0), (0, 2), (1, 0), (1, 2), (2, 0), (2, 1), (2, 3), (3, 2)):
+        obs.append(Ob(f"count_mismatch[obj={n_obj},w={n_w}]", ob_count_mismatch(n_obj, n_w), 120))
     lists = [n for n in var_lists(tier) if no_mixed_perm(n) and len(n) <= 2]
     for names in lists:
         tag = "+".join(names)
